@@ -24,6 +24,7 @@ inductive IOp
   | coWin (loser a b : Nat)                      -- co-winning head adopts action `a` instead of its own `b`
   | event (e : AEv)                              -- external action event
   | label (u : Nat)                              -- `start_new_flow_instance` label
+  | noRestart (u : Nat)                          -- `_advance_head_front`: an activated instance that fails before it was started is not restarted
   | frame (u heads : Nat) (scopes : List (Nat × List Nat × List Nat))  -- heads / scopes bookkeeping
   deriving Repr
 
@@ -76,7 +77,9 @@ def applyOp (s : State) : IOp → State
   | .coWin loser a b =>
     match s.flows loser, s.actions a with
     | some f, some x =>
-      if x.status == .starting && a != b then
+      -- (the winner is normally STARTING; the interpreter also lets a head co-win with an action that is already
+      --  STOPPING — observed in recorded traces — so no status guard here: the invariant does not need one)
+      if a != b then
         let s1 := setFlow s loser { f with actionUids := f.actionUids.map fun y => if y == b then a else y }
         { setAction s1 a { x with count := x.count + 1 } with actions := fun v => if v = b then none else (setAction s1 a { x with count := x.count + 1 }).actions v }
       else s
@@ -85,6 +88,7 @@ def applyOp (s : State) : IOp → State
     -- external events are `…Started/Updated/Finished` events of actions that have been started
     if eventOk s e then updateActionStatusByEvent s e else s
   | .label u => okOr s (labelRestart s u)
+  | .noRestart u => modFlow s u fun f => { f with nis := true }
   | .frame u heads scopes =>
     match s.flows u with
     | some f => setFlow s u { f with heads := heads, scopes := scopes }
